@@ -3,7 +3,8 @@
  * and the data handed to both multi-exponentiation callbacks (CB1_PRE / CB2_PRE, proved sufficient by
  * C19.verify_cb), for EVERY g_len, c_vec_len <= 2^16 (g_vec->n <= 2^17, proof_len <= 4200) and every scratch state.
  * All six loops (rho_f, rounds, s_g, s_h, powers_of_rho, scalar_inner_product) are closed by engine-supplied
- * loop contracts (unit table; invariants: index range only); the clz loop by unwinding 66.
+ * loop contracts (unit table; invariants: index range only), and so is the portable clz loop
+ * (invariant: x = x0 << ret with the shifted-out bits zero, which makes the result the exact leading-zero count).
  *
  * To keep goto-instrument's loop-contract pass (which inlines the whole call tree of a function that has
  * loop contracts) and the loop bodies small, the oracles are MODELS WITH A BODY here (frame = the accesses
@@ -43,6 +44,7 @@
 #include "src/scratch_impl.h"
 #undef secp256k1_scratch_alloc
 
+struct m_d32 { unsigned char b[32]; }; struct m_d32 nondet_m_d32(void);
 secp256k1_scalar nondet_m_scalar(void); secp256k1_sha256 nondet_m_sha(void); _Bool nondet_m_bool(void); size_t nondet_m_idx(void);
 int g_mm_n, g_sa_fail;
 #define SC_MODEL(res) do { secp256k1_scalar t_ = nondet_m_scalar(); __CPROVER_assume(scalar_ok(&t_)); *(res) = t_; } while (0)
@@ -68,10 +70,10 @@ static void secp256k1_sha256_write(const secp256k1_hash_ctx *hash_ctx, secp256k1
     *hash = nondet_m_sha();
 }
 static void secp256k1_sha256_finalize(const secp256k1_hash_ctx *hash_ctx, secp256k1_sha256 *hash, unsigned char *out32) {
-    int i; (void)hash_ctx;
+    (void)hash_ctx;
     __CPROVER_assert(__CPROVER_rw_ok(hash, sizeof(*hash)) && __CPROVER_w_ok(out32, 32), "C19 verify (all lengths): digest buffer valid");
     *hash = nondet_m_sha();
-    for (i = 0; i < 32; i++) out32[i] = (unsigned char)nondet_m_idx();
+    *(struct m_d32 *)out32 = nondet_m_d32();
 }
 static void *secp256k1_scratch_alloc(const secp256k1_callback* error_callback, secp256k1_scratch* scratch, size_t size) {
     size_t r = (size + 15) & ~(size_t)15; void *p;
